@@ -73,6 +73,10 @@ CHECKS = {
    text="Decay groups (three-body spin families incl. a second resonance in one slot; a four-body group where one resonance takes part in two chains): every non-empty chain subset equals the sum of its single-chain amplitude tensors; ordered pairs of selections (the selection API is stateful); each chain proportional to its own complex coupling (5-element menu); selection by every resonance-name set of size 1-2 against the card; fit fractions for every resonance list that partitions the chains, also with a restricted sub-model already active, through fit_fractions old / new (FitFractions) / cal_fitfractions_no_grad x batch sizes {1,2,3,N-1,N,N+1,4N,None} x N in {7,16} x weighted/unweighted samples against references built from single-chain integrals; sum rule; selection restored.",
    note="References use plain numpy sums over the library's single-chain amplitudes.",
    technique="bounded-exhaustive enumeration of chain subsets / selection histories / batchings with partial-sum references"),
+ "C05": dict(level="exploration", ref="4-C05",
+   text="A1: cards (integer and half-integer spins, two resonances in a slot, an l_list restriction) x strategy tuples (default, cached_amp, cached_amp with stripped angles/momenta, cached_shape, base_factor with and without cached angles, p4_directly) x flags (eager, use_tf_function, +no_id_cached, lazy_call; jit_compile in the thorough tier) x angle options (r_boost, random_z, center_mass, align_ref), each with an explicit-state exploration of the call/cache automaton of AbsPDF.__call__ (states = data ids seen x traced functions x parameter point; operations call(d1), call(d2), set_params(P1|P2)) against plain eager default evaluation on moving-parent events, sampled histories replayed on fresh objects. A2: cached_int / cached_amp / cfit+cached_amp vs their uncached counterparts (NLL and gradient). A3: every contraction expression the amplitude builder emits on the card families (harvested by interposition) plus a synthetic grammar (<=3 operands, <=3 letters each, all ordered output subsets, canonicalised by renaming): tf_pwa.einsum.einsum raises or equals numpy.einsum.",
+   note="The abstract automaton state is the complete mutable hidden state of AbsPDF/WrapFun (checked by fresh-object replays). XLA only in the thorough tier.",
+   technique="explicit-state exploration of the evaluation-cache automaton + bounded-exhaustive enumeration of strategy tuples and contraction programs"),
 }
 
 NA_REASON = "check not built yet in this round (planned in DESIGN.md section 4)"
